@@ -131,6 +131,13 @@ func raceVerdict(logPath string, from int64) (*h.Violation, string) {
 			f = strings.TrimPrefix(f, "github.com/Oudwins/")
 			lib = append(lib, f)
 		}
+		if len(lib) == 0 && (strings.Contains(head, "harness.(*Result).fill") || strings.Contains(head, "harness.collectRaw")) {
+			// no library frame, but one side is the harness reading what a call returned to it and the other side
+			// another task at work: the result of one call reaches memory of another concurrent call
+			first := strings.SplitN(strings.TrimSpace(rep), "\n", 2)[0]
+			return &h.Violation{Prop: "C08", Class: "C08/data-race returned-result-shares-memory-with-another-task",
+				Detail: first + " -- while the caller read the issues it was handed, another task was writing the same memory"}, ""
+		}
 		if len(lib) == 0 {
 			return nil, "race report without a library frame (harness bookkeeping raced):\n" + rep
 		}
